@@ -932,8 +932,23 @@ pub fn tokenize(out: &[u8]) -> Result<Vec<Ev>, String> {
             }
             i = j;
         } else {
-            let (l, _) = rest_line(i);
-            return Err(format!("unrecognised output: {:?}", l));
+            let (l, n) = rest_line(i);
+            // A line that is none of the known messages but stands directly behind a prompt, or behind the header of a print
+            // statement, is the emulator's answer to that command in other words (the statements do not fix the wording
+            // of a refusal): the refusal of a print range when it speaks of addresses, memory or a range or answers a
+            // print statement of the program, otherwise the "this is not a command" answer of the prompt.
+            let t = l.to_ascii_lowercase();
+            let behind_header = matches!(evs.last(), Some(Ev::PrintHdr(_)));
+            if (behind_header || matches!(evs.last(), Some(Ev::Prompt))) && !l.trim().is_empty() && !t.contains("panick") {
+                if behind_header || t.contains("address") || t.contains("memory") || t.contains("range") {
+                    evs.push(Ev::PrintRefused);
+                } else {
+                    evs.push(Ev::Invalid);
+                }
+                i = n;
+            } else {
+                return Err(format!("unrecognised output: {:?}", l));
+            }
         }
     }
     Ok(normalise(&evs))
